@@ -16,7 +16,10 @@ REPO = os.environ.get("QUICKADD_REPO", "/repo")
 if REPO not in sys.path:
     sys.path.insert(0, REPO)
 
+import logging  # noqa: E402
 import warnings  # noqa: E402
+
+logging.disable(logging.CRITICAL)      # the library logs warnings (e.g. "No model found") that only add noise here
 
 warnings.filterwarnings("ignore", category=SyntaxWarning)
 
